@@ -276,7 +276,8 @@ impl SignedPathSegment {
     #[inline]
     pub fn into_rpc(self) -> scion_protobuf::control_plane::v1::PathSegment {
         scion_protobuf::control_plane::v1::PathSegment {
-            segment_info: self.info.into_rpc().encode_to_vec(),
+            // Send the raw segment info the AS entries are signed over, not a re-encoding of it.
+            segment_info: self.info.encoded,
             as_entries: self.as_entries.into_iter().map(Into::into).collect(),
         }
     }
@@ -291,8 +292,14 @@ impl SignedPathSegment {
         )
         .map_err(|_| "Failed to decode segment info")?;
 
+        // The AS entries are signed over the segment info bytes as they were received. Re-encoding
+        // the decoded message would bind a different header whenever the sender's encoding is not
+        // byte-identical to ours (unknown fields, field order, explicit default values).
+        let mut info = SegmentInfo::try_from_rpc(segment_info)?;
+        info.encoded = segment.segment_info;
+
         Ok(Self {
-            info: segment_info.try_into()?,
+            info,
             as_entries: segment
                 .as_entries
                 .into_iter()
